@@ -51,6 +51,23 @@ def workload(tier: str, seed: int) -> tuple[list[dict], list[dict], dict]:
                           "uuid_seed": f"{seed}-{g}-{p}", "rng_seed": f"{seed}-{g}-{p}",
                           "work_dir": wd, "counts": b.get("counts", False)})
     stats["presentations_per_job_set"] = npres
+    # long-stream presentation for small job sets: the distinguished job sits at positions
+    # around powers of two / round numbers, cycling over the job sets
+    suspects = [15, 16, 17, 31, 32, 33, 49, 50, 51, 63, 64, 65, 99, 100, 101, 127, 128, 129]
+    npad = 0
+    for g, b in enumerate(groups):
+        if b.get("counts") or not (2 <= len(b["jobs"]) <= 8) or b["stratum"] != "S1":
+            continue
+        if sum(len(j) for j in b["jobs"]) > 80:
+            continue
+        if tier == "quick" and npad >= 54:
+            break
+        pos = suspects[npad % len(suspects)]
+        npad += 1
+        cases.append({"group": g, "name": b["name"], "jobs": b["jobs"],
+                      "variant": f"padded:{pos}", "uuid_seed": f"{seed}-{g}-pad",
+                      "rng_seed": f"{seed}-{g}-pad", "work_dir": wd, "counts": False})
+    stats["padded_long_stream_presentations"] = npad
     return groups, cases, stats
 
 
@@ -195,6 +212,8 @@ def main(tier: str, seed: int) -> int:
                                                             "counts")},
                        "seed": seed, "group": g, "tier": tier, "detail": detail,
                        "presentations": [{"variant": r["variant"], "hashseed": r.get("_hashseed"),
+                                          "uuid_seed": r.get("uuid_seed"),
+                                          "rng_seed": r.get("rng_seed"),
                                           "ok": r["learn_ok"], "exc": r.get("exc_type"),
                                           "nf_digest": core.digest(r.get("nf")) if r.get("nf")
                                           else None} for r in by_group[g]]}
@@ -221,13 +240,11 @@ def replay(path: str) -> int:
     w = data["case"]
     b = w["group_case"]
     seed, g = w["seed"], w["group"]
-    npres = len(w["presentations"])
-    cases = []
-    for p in range(npres):
-        variant = VARIANTS[p] if p < len(VARIANTS) else ("all", "group-by-job")[p % 2]
-        cases.append({"group": 0, "name": b["name"], "jobs": b["jobs"], "variant": variant,
-                      "uuid_seed": f"{seed}-{g}-{p}", "rng_seed": f"{seed}-{g}-{p}",
-                      "work_dir": core.work_dir(), "counts": b.get("counts", False)})
+    cases = [{"group": 0, "name": b["name"], "jobs": b["jobs"], "variant": p["variant"],
+              "uuid_seed": p.get("uuid_seed") or f"{seed}-{g}-{i}",
+              "rng_seed": p.get("rng_seed") or f"{seed}-{g}-{i}",
+              "work_dir": core.work_dir(), "counts": b.get("counts", False)}
+             for i, p in enumerate(w["presentations"])]
     bad = False
     rs = []
     for c, pinfo in zip(cases, w["presentations"]):
